@@ -22,13 +22,13 @@ def handle (cmd : String) (args : List String) : Option String :=
   | "enc.interp", [c] => some (toString (interpretWith Gen.interpretAscii c.toNat!))
   | "enc.mvarray", [ss] =>
       some (match mvarray Gen.interpretAscii (strs ss) with | some a => showArr a | none => "err")
-  | "enc.mvarrayn", [depth, ss] =>     -- nested arguments: groups separated by `/`, groups of groups by `//` (`_` = empty list)
+  | "enc.mvarrayn", [depth, ss] =>     -- nested arguments: groups separated by `/`, groups of groups by `//` (`_` / `__` / `___` = the empty list at depth 1 / 2 / 3)
       let grp (t : String) : List (List Nat) := if t == "_" then [] else strs t
-      let grp2 (t : String) : List (List (List Nat)) := if t == "_" then [] else (t.splitOn "/").map grp
+      let grp2 (t : String) : List (List (List Nat)) := if t == "__" then [] else (t.splitOn "/").map grp
       let r := match depth with
         | "1" => mvarrayN1 Gen.interpretAscii (grp ss)
         | "2" => mvarray2 Gen.interpretAscii (grp2 ss)
-        | _ => mvarray3 Gen.interpretAscii (if ss == "_" then [] else (ss.splitOn "//").map grp2)
+        | _ => mvarray3 Gen.interpretAscii (if ss == "___" then [] else (ss.splitOn "//").map grp2)
       some (match r with | some f => showFlat f | none => "err")
   | "enc.popcountint", [da] =>
       some (match popcountInt Gen.popCountLut (ints da) with | some n => toString n | none => "err")
